@@ -240,20 +240,37 @@ func DecodeStream(r Getter, path *CycleCheck, x *Stream) (io.ReadCloser, error) 
 			applyCrypt = false
 		}
 	}
-	if applyCrypt {
-		out, err = x.crypt.Decode(v, out, budget)
-		if err != nil {
-			return nil, src.promote(err)
+	// The filters see their input as an io.Reader, so closing one layer does
+	// not close the layers below it.  Some layers own resources (the DCT
+	// decoder runs a goroutine), so every layer is closed explicitly, both
+	// when the chain cannot be completed and when the caller closes it.
+	var lower []io.Closer
+	closeLower := func() {
+		for i := len(lower) - 1; i >= 0; i-- {
+			lower[i].Close()
 		}
 	}
 
-	for _, fi := range filters {
-		out, err = fi.Decode(v, out, budget)
+	if applyCrypt {
+		next, err := x.crypt.Decode(v, out, budget)
 		if err != nil {
 			return nil, src.promote(err)
 		}
+		lower = append(lower, out)
+		out = next
 	}
-	return &sourceAwareReader{inner: out, src: src}, nil
+
+	for _, fi := range filters {
+		next, err := fi.Decode(v, out, budget)
+		if err != nil {
+			out.Close()
+			closeLower()
+			return nil, src.promote(err)
+		}
+		lower = append(lower, out)
+		out = next
+	}
+	return &sourceAwareReader{inner: out, src: src, lower: lower}, nil
 }
 
 // sourceErrChecker wraps the raw byte source underlying a decoded PDF
@@ -299,6 +316,7 @@ func (s *sourceErrChecker) promote(err error) error {
 type sourceAwareReader struct {
 	inner io.ReadCloser
 	src   *sourceErrChecker
+	lower []io.Closer // the layers below inner, innermost first
 }
 
 func (s *sourceAwareReader) Read(p []byte) (int, error) {
@@ -309,7 +327,13 @@ func (s *sourceAwareReader) Read(p []byte) (int, error) {
 	return n, err
 }
 
-func (s *sourceAwareReader) Close() error { return s.inner.Close() }
+func (s *sourceAwareReader) Close() error {
+	err := s.inner.Close()
+	for i := len(s.lower) - 1; i >= 0; i-- {
+		s.lower[i].Close() // releases resources only
+	}
+	return err
+}
 
 // GetFilters extracts the information contained in the /Filter and
 // /DecodeParms entries of a stream dictionary.
